@@ -32,7 +32,7 @@ TECHNIQUE = "raw Arrow-IPC request fuzzing (grammar over framework metadata keys
 LEVEL_TEXT = (
     "Fault enumeration + exploration: a grid over each framework metadata key x hostile value class, generated column "
     "sets x row counts, every message-boundary truncation of sample requests and seeded random corruptions, each "
-    "followed by a nonce-echo probe (or an EOF expectation). Held = every well-framed request was answered and the "
+    "followed by a nonce-echo probe (or an EOF expectation).; 0-row shared-memory pointer requests (allocated, unregistered, garbage, truncated regions, hostile numbers x real/foreign/missing segment); every corrupt request also from a peer that keeps its write side open (judged when the IPC reader does not want more input). Held = every well-framed request was answered and the "
     "connection kept serving; every corrupt one was answered or the connection was closed."
 )
 LEVEL_NOTE = "in-process serve thread over a Unix socketpair; shared-memory segments used as hostile inputs are created by the harness (a VGI segment, a foreign non-VGI segment) and removed afterwards"
